@@ -1,5 +1,5 @@
 (* kind conv: one scripted conversation with the server *)
-From Smtp Require Import Bytes Sx GoStrings Transport DataReader Parse Reply Rfc3339 Lmtp Conn CheckBase.
+From Smtp Require Import Bytes Sx GoStrings Transport DataReader Parse Reply Rfc3339 Lmtp Conn Order CheckBase.
 
 (* ---------- decoding ---------- *)
 
@@ -143,7 +143,7 @@ Definition show_event (e : event) : option sx :=
   | ELogout => Some (SL [XT "logout"])
   | EAuth m r => Some (SL [XT "auth"; XB m; show_berr r])
   | EAuthNext rs ch d r => Some (SL [XT "authnext"; show_optb rs; XB ch; XBool d; show_berr r])
-  | ECmd _ | EDelivery _ _ _ _ | EClose | EPanic | ETlsStart _ | EOutOfFuel => None
+  | ECmd _ | EAuthOk | EBdatStart | EDelivery _ _ _ _ | EClose | EPanic | ETlsStart _ | EOutOfFuel => None
   end.
 
 (* merge adjacent wire events *)
@@ -318,7 +318,10 @@ Definition check_conv (args : list sx) : verdict :=
           let model := conv_obs cfg evs in
           let agree := negb (has_out_of_fuel evs)
                        && (sx_eqb model (canon_obs obs) || trace_nondet cfg evs) in
-          mkV true agree model [] [] (conv_tags cfg evs ++ (if trace_nondet cfg evs then [bs "nondet-param-order"] else []))
+          let mon_ok := match mon_run cfg (mon_init (cf_implicit_tls cfg)) evs with Some _ => true | None => false end in
+          mkV true (agree && mon_ok) model [] []
+              (conv_tags cfg evs ++ (if trace_nondet cfg evs then [bs "nondet-param-order"] else [])
+               ++ (if mon_ok then [] else [bs "MODEL-TRACE-REJECTED-BY-MONITOR"]))
       | _, _, _ => bad_case
       end
   | _, _, _, _ => bad_case
